@@ -53,17 +53,35 @@ impl ScannerCfg {
     pub fn to_modes(&self) -> Vec<scnr::ScannerMode> {
         self.modes.iter().map(|m| m.to_mode()).collect()
     }
+    /// A number that depends on the configuration only; it selects which of the equivalent public
+    /// ways of handing the modes to the library a build uses (so that all of them are exercised).
+    fn api_path(&self) -> usize {
+        self.modes.iter().map(|m| m.name.len() + 3 * m.pats.len() + 5 * m.trans.len() + m.pats.iter().map(|p| p.tt % 7).sum::<usize>()).sum::<usize>() % 4
+    }
     pub fn build_uncached(&self) -> Result<scnr::Scanner, String> {
-        scnr::ScannerBuilder::new()
-            .add_scanner_modes(&self.to_modes())
-            .build_uncached()
-            .map_err(|e| e.to_string())
+        let modes = self.to_modes();
+        match self.api_path() {
+            2 => {
+                let mut b = scnr::ScannerBuilder::new();
+                for m in modes {
+                    b = b.add_scanner_mode(m);
+                }
+                b.build_uncached().map_err(|e| e.to_string())
+            }
+            3 => scnr::Scanner::try_from(modes).map_err(|e| e.to_string()),
+            _ => scnr::ScannerBuilder::new().add_scanner_modes(&modes).build_uncached().map_err(|e| e.to_string()),
+        }
     }
     pub fn build_cached(&self) -> Result<scnr::Scanner, String> {
-        scnr::ScannerBuilder::new()
-            .add_scanner_modes(&self.to_modes())
-            .build()
-            .map_err(|e| e.to_string())
+        let modes = self.to_modes();
+        match self.api_path() {
+            3 if !modes.is_empty() => scnr::ScannerBuilder::new()
+                .add_scanner_mode(modes[0].clone())
+                .add_scanner_modes(&modes[1..])
+                .build()
+                .map_err(|e| e.to_string()),
+            _ => scnr::ScannerBuilder::new().add_scanner_modes(&modes).build().map_err(|e| e.to_string()),
+        }
     }
     /// Pattern texts for human readable samples.
     pub fn describe(&self) -> serde_json::Value {
